@@ -1445,21 +1445,81 @@ def to_tokens(e, v, ts, ty=''):
 
 
 def generics_to_tokens(e, g, ts):
-    """syn 1.x `impl ToTokens for Generics`: nothing when empty; lifetimes first, then the rest,
-    each parameter printed in full (bounds and defaults included), comma separated."""
+    """syn 1.0.x `impl ToTokens for Generics`: nothing when empty; lifetimes are printed first (each with the comma that follows it in
+    the Punctuated, if any), then the other parameters in full (bounds and defaults included), inserting a comma when the last thing
+    printed had none — which is how a trailing comma appears when a lifetime was pushed after a type parameter."""
     params = g.params.items
     if not params:
         return
     push_punct(ts, '<')
-    first = True
     lt_idx = e.enums['syn::GenericParam'].index('Lifetime')
-    order = [p for p in params if p.d == lt_idx] + [p for p in params if p.d != lt_idx]
-    for p in order:
-        if not first:
+    n = len(params)
+    trailing_or_empty = True
+    for i, p in enumerate(params):
+        if p.d == lt_idx:
+            to_tokens(e, p, ts)
+            has_punct = i < n - 1
+            if has_punct:
+                push_punct(ts, ',')
+            trailing_or_empty = has_punct
+    for i, p in enumerate(params):
+        if p.d == lt_idx:
+            continue
+        if not trailing_or_empty:
             push_punct(ts, ',')
-        first = False
+            trailing_or_empty = True
         to_tokens(e, p, ts)
+        if i < n - 1:
+            push_punct(ts, ',')
     push_punct(ts, '>')
+
+
+class GenView:
+    """syn::ImplGenerics / syn::TypeGenerics: views of a Generics value with their own printing rules"""
+
+    def __init__(self, g, mode):
+        self.g, self.mode = g, mode
+
+    def clone(self):
+        return self
+
+    def to_tokens(self, e, ts):
+        params = self.g.params.items
+        if not params:
+            return
+        push_punct(ts, '<')
+        lt_idx = e.enums['syn::GenericParam'].index('Lifetime')
+        n = len(params)
+        trailing_or_empty = True
+        for i, p in enumerate(params):
+            if p.d == lt_idx:
+                self.one(e, p, ts)
+                if i < n - 1:
+                    push_punct(ts, ',')
+                trailing_or_empty = i < n - 1
+        for i, p in enumerate(params):
+            if p.d == lt_idx:
+                continue
+            if not trailing_or_empty:
+                push_punct(ts, ',')
+                trailing_or_empty = True
+            self.one(e, p, ts)
+            if i < n - 1:
+                push_punct(ts, ',')
+        push_punct(ts, '>')
+
+    def one(self, e, p, ts):
+        v = p.p[p.d][0]
+        if self.mode == 'type':
+            v.name_tokens(e, ts)           # argument form: the bare name
+        else:
+            v.impl_tokens(e, ts)           # declaration without default
+
+
+@exact('syn::Generics::split_for_impl')
+def m_split_for_impl(e, args, info):
+    g = e.deref(args[0])
+    return Agg(None, [GenView(g, 'impl'), GenView(g, 'type'), none() if g.where is None else some(g.where)])
 
 
 def push_punct(ts, s):
